@@ -221,7 +221,9 @@ cdef class LegacyRecordBatch:
             pos += read_size
         else:
             key = None
-        # Read value
+        # Read value. The minimum size check above only covers the value
+        # length of a record with an empty key
+        self._check_bounds(pos, VALUE_LENGTH)
         read_size = <Py_ssize_t> hton.unpack_int32(&buf[pos])
         pos += VALUE_LENGTH
         if read_size != -1:
